@@ -13,6 +13,19 @@ Theorem C15_post_gate : forall r,
 Proof. exact post_gate. Qed.
 Print Assumptions C15_post_gate.
 
+(* T1, shape form: the accepted Content-Type is blanks* "application/json" blanks* followed
+   by nothing or ";..." (blanks = str.strip() blanks).  No value a browser may send without
+   a preflight has that shape: the CORS-safelisted media types are
+   application/x-www-form-urlencoded, multipart/form-data and text/plain. *)
+Theorem C15_post_gate_shape : forall r,
+  r_kind r = Post -> r_csrf r = true -> reaches_core (handle r) = true ->
+  exists v w1 w2 tail,
+    r_ctype r = Some v /\ v = w1 ++ app_json ++ w2 ++ tail /\
+    forallb py_isspace w1 = true /\ forallb py_isspace w2 = true /\
+    (tail = [] \/ exists t, tail = 59 :: t).
+Proof. exact post_gate_shape. Qed.
+Print Assumptions C15_post_gate_shape.
+
 (* T2 preflight_sound: CORS is granted (or any non-refusal answer given) only to a present,
    non-empty Origin whose netloc is empty, equals Host after lower-casing, or is allow-listed *)
 Theorem C15_preflight_sound : forall r,
